@@ -242,6 +242,7 @@ def _check_history(case, ctx):
             built[aname] = B.build(aname)
         last = B.invoke(C[cname][1], built[aname], amr)
         ctx.transitions += 1
+    # between calls a client may use its results in place (documented in-place operations on the result objects)
     cname, aname = seq[-1]
     want = base[f'{cname}@{aname}']
     ctx.validated += 1
